@@ -168,10 +168,14 @@ def run_roundtrip(case, seed, st):
         g = np.random.default_rng(3 + seed)
         variants = {"reversed": comm[::-1].copy(), "rotated": np.roll(comm, 1, axis=0), "shuffled": comm[g.permutation(N)],
                     "other-representatives": comm + g.integers(-2, 3, size=comm.shape)}
+        variants["fortran-ordered-arrays"] = comm.copy()
         for vn, pts in variants.items():
             ph.run_qpoints(pts, with_dynamical_matrices=True)
+            dm_in = ph.get_qpoints_dict()["dynamical_matrices"]
+            if vn == "fortran-ordered-arrays":
+                dm_in, pts = np.asfortranarray(dm_in), np.asfortranarray(pts)
             try:
-                d3 = DynmatToForceConstants(ph.primitive, ph.supercell, dynamical_matrices=ph.get_qpoints_dict()["dynamical_matrices"], commensurate_points=pts,
+                d3 = DynmatToForceConstants(ph.primitive, ph.supercell, dynamical_matrices=dm_in, commensurate_points=pts,
                                             is_full_fc=(case["layout"] == "full"), use_openmp=(case["path"] == "C/omp"))
                 d3.run(lang=lang)
                 fc3 = np.array(d3.force_constants)
